@@ -1,5 +1,6 @@
 import Firefly.Model.Kfmt
 import Firefly.Proof.Kfmt
+import Firefly.Proof.KfmtIdx
 /-!
 # C15 — Kernel printf output is exact, bounded, and allocation-free
 
@@ -43,23 +44,34 @@ theorem fmtInt_exact (buf : List Byte) (a : Arg) (b : Base) (padLen : Int)
       buf'.length = numFmtBufLen :=
   Firefly.Kfmt.fmtInt_exact buf a b padLen hbuf hr
 
+/-- **index_model_refines** — the index-level model of the `Fprintf` loop (`blockStart`,
+`blockEnd`, `nextArgIndex`; every `format[i]` and `args[i]` a checked access, out of range =
+`.panic`) computes exactly what the list-traversal model computes: same chunks, and a panic of
+one is a panic of the other. -/
+theorem index_model_refines (buf : List Byte) (format : List Byte) (args : List Arg) :
+    fprintfIdx buf format args = fprintf buf format args :=
+  fprintfIdx_eq buf format args
+
 /-- **never_panics** — for arbitrary format bytes and arbitrary arguments (any number, any type,
-any value) and any scratch-buffer content, `Fprintf` completes. -/
+any value) and any scratch-buffer content, `Fprintf` (index-level model: checked `format[i]`,
+`args[i]`, `numFmtBuf[i]`) completes. -/
 theorem never_panics (buf : List Byte) (format : List Byte) (args : List Arg)
     (hbuf : buf.length = numFmtBufLen) :
-    ∃ writes, fprintf buf format args = .ok writes :=
-  scan_total format none args buf hbuf
+    ∃ writes, fprintfIdx buf format args = .ok writes := by
+  rw [fprintfIdx_eq]
+  exact scan_total format none args buf hbuf
 
 /-- **exact** — for every format of the supported grammar (`parse` succeeds: literal bytes, `%%`,
 `%[decimal width]{d,x,o,s,t}`, width below 2^63) and every argument list (too short, too long and
-wrongly typed included), the concatenation of everything `Fprintf` writes is exactly the
-specification's output: literal text, one `%`, `render` of each argument, `(MISSING)`,
+wrongly typed included), the concatenation of everything `Fprintf` (index-level model) writes is
+exactly the specification's output: literal text, one `%`, `render` of each argument, `(MISSING)`,
 `%!(WRONGTYPE)`, and one `%!(EXTRA)` per surplus argument. -/
 theorem exact (buf : List Byte) (format : List Byte) (args : List Arg) (pieces : List Piece)
     (hbuf : buf.length = numFmtBufLen) (hargs : ∀ a ∈ args, a.inRange = true)
     (hfmt : parse .text format = some pieces) :
-    ∃ writes, fprintf buf format args = .ok writes ∧ writes.flatten = specOutput pieces args :=
-  scan_exact format .text args buf pieces hbuf hargs (by decide) hfmt
+    ∃ writes, fprintfIdx buf format args = .ok writes ∧ writes.flatten = specOutput pieces args := by
+  rw [fprintfIdx_eq]
+  exact scan_exact format .text args buf pieces hbuf hargs (by decide) hfmt
 
 /-- **magnitude** — the digit string the specification (hence, by `exact`, the formatter) prints
 denotes the magnitude: its value in the base is `n`, every character is a digit below the base, and
@@ -104,8 +116,8 @@ width `-2^63` (format `%9223372036854775808s`) with a non-empty string `s` asks 
 `2^63 - len(s)` blanks (one `Write` each) instead of none. -/
 theorem wrapped_string_width_quirk (s : List Byte) (h0 : 0 < s.length) (h1 : s.length < 2 ^ 63) :
     (fmtString (.str s) (-(2 ^ 63 : Int))).length = (2 ^ 63 - s.length) + s.length := by
-  have h : (wrap64 (-(2 ^ 63 : Int) - s.length)).toNat = 2 ^ 63 - s.length := by
-    unfold wrap64; omega
+  have h : (strPadCount (-(2 ^ 63 : Int)) s.length).toNat = 2 ^ 63 - s.length := by
+    unfold strPadCount wrap64; omega
   unfold fmtString fmtRepeat
   rw [List.length_append, List.length_replicate, List.length_map, h]
 
@@ -133,10 +145,10 @@ example : renderIntArg .b10 0 (.sgn .i64 (-9223372036854775808))
 
 /-- the model, run: `Fprintf("%zd", int(5))` writes `%!(NOVERB)` and then still formats the 5;
 a trailing `%12` writes nothing; a missing argument writes the marker -/
-example : fprintf (List.replicate 33 0) [37, 122, 100] [.sgn .int 5] = .ok [errNoVerb, [53]] := by decide
-example : fprintf (List.replicate 33 0) [120, 37, 49, 50] [] = .ok [[120]] := by decide
-example : fprintf (List.replicate 33 0) [37, 100] [] = .ok [errMissingArg] := by decide
-example : fprintf (List.replicate 33 0) [37, 51, 50, 100] [.sgn .int (-1)]
+example : fprintfIdx (List.replicate 33 0) [37, 122, 100] [.sgn .int 5] = .ok [errNoVerb, [53]] := by decide
+example : fprintfIdx (List.replicate 33 0) [120, 37, 49, 50] [] = .ok [[120]] := by decide
+example : fprintfIdx (List.replicate 33 0) [37, 100] [] = .ok [errMissingArg] := by decide
+example : fprintfIdx (List.replicate 33 0) [37, 51, 50, 100] [.sgn .int (-1)]
     = .ok [List.replicate 29 32 ++ [45, 49]] := by decide
 
 end Firefly.C15
